@@ -31,6 +31,23 @@ func (eng *Engine) isDropped(ref string, fn *types.Func) bool {
 	return eng.extraDropped[ref]
 }
 
+// clockNow reads the ghost "current reading" of an injected clock.
+func (ex *Exec) clockNow(st *State, clock *Val, t types.Type, sc *SpecCtx) *Val {
+	s := st
+	if sc != nil && sc.inOld {
+		s = sc.old
+	}
+	ref := "0"
+	if clock != nil && clock.Sh != nil && clock.Sh.IsLeaf() {
+		ref = clock.S
+	}
+	arr := ex.heapArr(s, heapKey("G$", "clockNow"), "Int")
+	if t == nil {
+		t = ex.eng.resolveTypeName("time.Time", "")
+	}
+	return &Val{Sh: ex.eng.sh.shapeOf(t), T: t, S: "(select " + arr + " " + ref + ")"}
+}
+
 func (ex *Exec) timeVal(s string, t types.Type) *Val {
 	return &Val{Sh: ex.eng.sh.shapeOf(t), T: t, S: s}
 }
@@ -39,6 +56,17 @@ func (ex *Exec) modelled(st *State, ref string, fn *types.Func, recv *Val, args 
 	one := func(v *Val) ([]*Val, bool) { ex.modelUsed[ref]++; return []*Val{v}, true }
 	none := func() ([]*Val, bool) { ex.modelUsed[ref]++; return nil, true }
 	res := resultTypes(fn)
+	if resT != nil {
+		if tup, ok := resT.(*types.Tuple); ok {
+			if tup.Len() == len(res) {
+				for i := range res {
+					res[i] = tup.At(i).Type()
+				}
+			}
+		} else if len(res) == 1 {
+			res[0] = resT
+		}
+	}
 	r0 := func() types.Type {
 		if len(res) > 0 {
 			return res[0]
@@ -82,16 +110,93 @@ func (ex *Exec) modelled(st *State, ref string, fn *types.Func, recv *Val, args 
 		return one(ex.timeVal("(* "+args[0].S+" 1000000)", r0()))
 	case "time.UnixMicro":
 		return one(ex.timeVal("(* "+args[0].S+" 1000)", r0()))
-	case "time.Now", "github.com/jonboulle/clockwork.Clock.Now":
+	case "time.Now":
 		ex.eng.nowN++
 		v := ex.freshVal(r0(), fmt.Sprintf("now%d", ex.eng.nowN))
 		ex.nowVals = append(ex.nowVals, v)
 		return one(v)
-	case "time.Since", "github.com/jonboulle/clockwork.Clock.Since":
+	case "github.com/jonboulle/clockwork.Clock.Now":
+		// the injected clock: one reading per operation (the clock does not
+		// advance inside a function under contract unless it calls unknown code)
+		ex.assumption("the injected clock does not advance within one operation (Clock.Now() reads the ghost cell clockNow(clock))")
+		return one(ex.clockNow(st, recv, r0(), sc))
+	case "time.Since":
 		ex.eng.nowN++
 		now := ex.freshVal(args[0].T, fmt.Sprintf("now%d", ex.eng.nowN))
 		ex.nowVals = append(ex.nowVals, now)
 		return one(ex.timeVal("(- "+now.S+" "+args[0].S+")", r0()))
+	case "github.com/jonboulle/clockwork.Clock.Since":
+		now := ex.clockNow(st, recv, args[0].T, sc)
+		return one(ex.timeVal("(- "+now.S+" "+args[0].S+")", r0()))
+	case "golang.org/x/exp/maps.DeleteFunc", "maps.DeleteFunc":
+		m, f := args[0], args[1]
+		if m.Sh != nil && m.Sh.Kind == "map" && f.Fn != nil && f.Fn.Lit != nil && sc == nil {
+			mt := m.T.Underlying().(*types.Map)
+			nm := ex.freshVal(m.T, "filtered")
+			ks := m.kid("dom").Sh.Idx
+			ex.eng.qn++
+			q := fmt.Sprintf("q_df_%d", ex.eng.qn)
+			kv := &Val{Sh: ex.eng.sh.shapeOf(mt.Key()), T: mt.Key(), S: q}
+			ex.bound++
+			vv := ex.retype(ex.selectVal(m.kid("val"), q), mt.Elem())
+			tmp := st.clone()
+			res := ex.inlineLit(tmp, f.Fn.Lit, []*Val{kv, vv}, f.Fn.Ex)
+			ex.bound--
+			if len(res) == 1 {
+				pred := and(append(append([]string{}, tmp.pc[len(st.pc):]...), res[0].S)...)
+				_ = pred
+				st.assume("(forall ((" + q + " " + ks + ")) (! (= (select " + nm.kid("dom").S + " " + q + ") (and (select " + m.kid("dom").S + " " + q + ") (not " + res[0].S + "))) :pattern ((select " + nm.kid("dom").S + " " + q + "))))")
+				st.assume(ex.eqVal(nm.kid("val"), m.kid("val")))
+				st.assume("(<= " + nm.kid("card").S + " " + m.kid("card").S + ")")
+				if call := ex.curCall; call != nil && len(call.Args) > 0 {
+					ex.assignBack(st, call.Args[0], nm)
+				}
+				ex.assumption("maps.DeleteFunc(m, f): removes exactly the entries for which f holds, keeps all other entries and values")
+				return none()
+			}
+		}
+	case "golang.org/x/exp/maps.Keys":
+		m := args[0]
+		if m.Sh != nil && m.Sh.Kind == "map" {
+			r := ex.freshVal(r0(), "keys")
+			ks := m.kid("dom").Sh.Idx
+			st.assume(eq(r.kid("len").S, m.kid("card").S))
+			el := r.kid("elems").S
+			st.assume("(forall ((i Int)) (! (=> (and (<= 0 i) (< i " + r.kid("len").S + ")) (select " + m.kid("dom").S + " (select " + el + " i))) :pattern ((select " + el + " i))))")
+			st.assume("(forall ((k " + ks + ")) (! (=> (select " + m.kid("dom").S + " k) (exists ((i Int)) (and (<= 0 i) (< i " + r.kid("len").S + ") (= (select " + el + " i) k)))) :pattern ((select " + m.kid("dom").S + " k))))")
+			ex.assumption("maps.Keys(m): a slice of length len(m) holding exactly the keys of m")
+			return one(r)
+		}
+	case "sort.Slice", "sort.Strings", "slices.Sort", "sort.Sort", "sort.Stable", "sort.SliceStable":
+		s := args[0]
+		if s.Sh != nil && s.Sh.Kind == "slice" && s.kid("elems").Sh.IsLeaf() && sc == nil {
+			r := ex.freshVal(s.T, "sorted")
+			es := s.kid("elems").Sh.Elem.Leaf
+			st.assume(eq(r.kid("len").S, s.kid("len").S))
+			a, b, n := s.kid("elems").S, r.kid("elems").S, s.kid("len").S
+			mem := func(arr string) string {
+				return "(exists ((i Int)) (and (<= 0 i) (< i " + n + ") (= (select " + arr + " i) x)))"
+			}
+			st.assume("(forall ((x " + es + ")) (= " + mem(a) + " " + mem(b) + "))")
+			if ref == "sort.Strings" || ref == "slices.Sort" {
+				var le string
+				switch es {
+				case "String":
+					le = "(str.<= (select " + b + " i) (select " + b + " j))"
+				case "Int", "Real":
+					le = "(<= (select " + b + " i) (select " + b + " j))"
+				default:
+					lt := ex.eng.orderFn(es)
+					le = "(not (" + lt + " (select " + b + " j) (select " + b + " i)))"
+				}
+				st.assume("(forall ((i Int) (j Int)) (! (=> (and (<= 0 i) (< i j) (< j " + n + ")) " + le + ") :pattern ((select " + b + " i) (select " + b + " j))))")
+			}
+			if call := ex.curCall; call != nil && len(call.Args) > 0 {
+				ex.assignBack(st, call.Args[0], r)
+			}
+			ex.assumption("sort: the result is a permutation of the input (same members, same length)" )
+			return none()
+		}
 	case "time.Duration.Milliseconds":
 		return one(ex.intVal(ex.tdiv(recv.S, "1000000", nil), r0()))
 	case "time.Duration.Microseconds":
